@@ -160,6 +160,12 @@ class Observer:
                 if key in self.seen_reports:
                     continue
                 self.seen_reports.add(key)
+                if not rep["frames"]:
+                    # no frame of the engine (or of the driver) anywhere in the report: the tool objects to a dependency's own
+                    # internals (e.g. crossbeam-epoch under Miri's experimental Stacked Borrows model), which this property does
+                    # not cover; shown, not judged
+                    chk.inconc(f"{variant}: {rep['tool']} report without any engine frame ({rep['kind'][:80]})")
+                    continue
                 c = byid.get(rep.get("case"))
                 chk.violation({"kind": "sanitizer-report", "tool": rep["tool"], "bug": rep["kind"], "frames": rep["frames"][:2]},
                               f"[{variant}] {rep['tool']}: {rep['kind']} at {rep['frames'][:3]}\n{rep['text'][:1500]}", {"cases": [c] if c else [], "variant": variant})
@@ -293,9 +299,11 @@ def run(chk):
         # ---------------- miri (thorough tier only: building the interpreter's copy of the dependency tree alone takes ~10 minutes)
         if thorough and use("miri"):
             cases = own_cases(random.Random(chk.seed + 9), thorough, tiny=True)[: (16 if thorough else 4)] + file_cases(random.Random(chk.seed + 10), d, thorough, tiny=True)[: (6 if thorough else 2)]
-            if thorough:
-                cases += own_cases(random.Random(chk.seed + 11), thorough, tiny=True, native=True)[:4]
             vrun.run_sharded(cases, shards=16, wall_s=6000 if thorough else 2400)
+            # the production thread pool under Miri: rayon's crossbeam-epoch is rejected by the Stacked Borrows model on its own,
+            # so these cases run under Tree Borrows (data-race detection and the other UB checks are unaffected)
+            use("miri", env={"MIRIFLAGS": vrun.SANITIZER_ENV["miri"]["MIRIFLAGS"] + " -Zmiri-tree-borrows"})
+            vrun.run_sharded(own_cases(random.Random(chk.seed + 11), thorough, tiny=True, native=True)[:4], shards=4, wall_s=4000)
     finally:
         vrun.OVERRIDE.update({"variant": None, "max_cases": None, "observer": None, "wrapper": None, "env": None, "wall_s": None})
     for v, st in obs.stats.items():
